@@ -1,3 +1,5 @@
+import MiniconfVerif.Lemmas.Enum
+import MiniconfVerif.Lemmas.GenTie
 import MiniconfVerif.Lemmas.PackedPath
 import MiniconfVerif.Lemmas.TextKeys
 
@@ -97,5 +99,39 @@ def ex : Schema := .node (.named ["foo", "bar", "baz"]) [.leaf, .array 3 .leaf, 
 example : ex.WF := by simp [ex, Schema.WF, Schema.WF.wfList, Lookup.len]
 example : ex.meta = ⟨4, 2, 5, 4⟩ := by decide +kernel
 example : ex.leaves = [[0], [1, 0], [1, 1], [1, 2], [2]] := by decide
+
+
+/-! ### Tie to the translated source (`Gen/Core.lean`, regenerated from walk.rs on every run) -/
+open MiniconfVerif.Gen MiniconfVerif.Gen.Core MiniconfVerif.GenTie in
+/-- `<Metadata as Walk>::internal` **as translated from walk.rs** never panics on the children of a
+well-formed struct/tuple/enum-like node and returns exactly the model's merge of the children's metadata
+(so `count_exact` … `length_exact` are statements about the translated source). -/
+theorem source_internal_is_model (lk : Lookup) (cs : List Schema)
+    (hwf : (Schema.node lk cs).WF) (h64 : lk.len < 2 ^ 64) :
+    Metadata.internal (cs.map fun c => metaToGen c.meta) (lookupToGen lk) =
+      .val (.ok (metaToGen (Schema.node lk cs).meta)) := by
+  obtain ⟨hlen, hpos, hnames, hcs⟩ := hwf
+  have hk : ∀ n, lk ≠ .homog n := by
+    intro n h; subst h; exact hnames
+  have h := internal_tie lk (cs.map Schema.meta) (by simpa using hlen) hpos h64 hk (by
+    intro c hc
+    obtain ⟨x, hx, rfl⟩ := List.mem_map.mp hc
+    rw [meta_count x]
+    exact List.length_pos_iff.mpr (leaves_ne_nil x (wfList_mem cs hcs x hx)))
+  simpa [Schema.meta, go_eq_mergeList, List.map_map, Function.comp_def] using h
+
+open MiniconfVerif.Gen MiniconfVerif.Gen.Core MiniconfVerif.GenTie in
+/-- the same for arrays (`Homogeneous(n)`, one child) -/
+theorem source_internal_array_is_model (n : Nat) (c : Schema) (hwf : (Schema.array n c).WF) (h64 : n < 2 ^ 64) :
+    Metadata.internal [metaToGen c.meta] (.Homogeneous n) = .val (.ok (metaToGen (Schema.array n c).meta)) := by
+  have := internal_array_tie n c.meta hwf.1 h64 (by
+    rw [meta_count c]; exact List.length_pos_iff.mpr (leaves_ne_nil c hwf.2))
+  simpa [Schema.meta] using this
+
+open MiniconfVerif.Gen MiniconfVerif.Gen.Core MiniconfVerif.GenTie in
+/-- `<Metadata as Walk>::leaf` and `Metadata::max_length(separator)` of the source -/
+theorem source_leaf_and_max_length (m : Meta) (sep : String) :
+    Metadata.leaf = metaToGen Schema.leaf.meta ∧
+    (metaToGen m).max_length_sep sep = m.maxLength + m.maxDepth * sep.utf8ByteSize := ⟨rfl, rfl⟩
 
 end MiniconfVerif.C06
